@@ -30,10 +30,12 @@ pub const INFO: Info = Info {
     rule: "gauss: n<=6 (quick) / 10 (thorough) systems with A = random SPD (G'G + dI), nearly singular PSD \
            (G'G, rank r<n, float-rounded), exactly singular PSD (small integers), diagonal / zero rows, \
            ill-scaled (D A D with D = diag(10^k), k in -6..9, and the repaired witness [[1e9,-1e9],[-1e9,1e9]],[1,2]), \
-           ill-conditioned Hilbert-like; B random, m in 1..3 or m = n; non-trivial = A non-zero and n >= 2. \
+           ill-conditioned Hilbert-like, right-hand sides wider and narrower than A ((3,5),(4,2),(2,6),(5,1),(1,4),(6,3),(3,7)), \
+           left_solved-tolerance cases [[s,st],[st,st^2]] with t = 2^-16..2^-27; B random, m in 1..3 or m = n; non-trivial = A non-zero and n >= 2. \
            lda: n<=30 (quick) / 200 (thorough) rows, p<=5 (quick) / 8 features drawn as class mean + noise + a common offset, \
            variants: well-conditioned, constant column, class-wise constant column, collinear columns, column scales 10^k, \
-           single-row class, one class empty, duplicated rows, -0.0 entries; row order: identity, random permutations, and ALL \
+           single-row class, one class empty, duplicated rows, -0.0 entries, \
+           large-offset (well-conditioned after centring; one or two columns offset by 1e3 / 1e6 / 1e9 with unit spread, or a column 1 + 1e-6*value; 20..60 rows, shuffled); row order: identity, random permutations, and ALL \
            permutations for n <= 4 (quick) / 6 (thorough); non-trivial = both classes present and p >= 2. \
            scorepsms: 1..80 (quick) / 400 PSM feature records with realistic ranges (finite poisson <= 0), large and small sets, \
            constant charge/rank columns, ion mobility present or all zero, two decoys only; a default-on family `nonfinite-feature-guarded` (fittable sets of 40..70 records in which 1..3 records carry poisson in {-inf,+inf,NaN,2.5,1.0} or \
@@ -345,6 +347,23 @@ fn gen_gauss(rng: &mut Rng, tier: Tier, emit: &mut dyn FnMut(Case)) {
     emit(Case::new(req_gauss(3, 1, &[2.0, f64::NEG_INFINITY, 0.0, f64::NEG_INFINITY, 2.0, 0.0, 0.0, 0.0, 1.0], &[1.0, 2.0, 3.0])).tag("gauss").tag("non-finite-input").nontrivial(false));
     emit(Case::new(req_gauss(2, 1, &[1e200, 1e200, 1e200, 3e200], &[1e200, 1.0])).tag("gauss").tag("huge-scale"));
 
+    // the tolerance of left_solved: exactly singular [[s, s t], [s t, s t^2]] with t = 2^-16, 2^-20, 2^-24 at
+    // a scale that absorbs the first regulariser: the eliminated left side is [[1, t], [0, 0]], which
+    // left_solved must reject for t > 1e-8 (a larger tolerance returns the unsolved right side)
+    for &(ls, lt) in &[(60i32, 16i32), (68, 20), (76, 24), (82, 27)] {
+        let (sv, tv) = (2f64.powi(ls), 2f64.powi(-lt));
+        emit(Case::new(req_gauss(2, 1, &[sv, sv * tv, sv * tv, sv * tv * tv], &[1.0, 3.0])).tag("gauss").tag("left-solved-tolerance"));
+    }
+    // right-hand sides wider and narrower than A (seeded change C15-F: a loop over the right side
+    // bounded by left.cols): SPD, well-conditioned, so the strict first-regulariser clause judges them
+    for &(n, m) in &[(3usize, 5usize), (4, 2), (2, 6), (5, 1), (1, 4), (6, 3), (3, 7)] {
+        for integer in [true, false] {
+            let a = gram(rng, n, n + 2, 1.0, integer);
+            let b = rand_rhs(rng, n, m, integer);
+            emit(Case::new(req_gauss(n, m, &a, &b)).tag("gauss").tag("spd").tag(if m > n { "rhs-wider" } else { "rhs-narrower" }).nontrivial(n >= 2));
+        }
+    }
+
     let reps = if quick { 60 } else { 1500 };
     for _ in 0..reps {
         // general (non-symmetric / indefinite) systems: row swaps, negative pivots
@@ -451,6 +470,10 @@ enum Variant {
     Scales,
     Integer,
     Duplicates,
+    /// one or two columns carry a large common offset (unit spread): well-conditioned after centring
+    Offset(f64),
+    /// one column is `1 + 1e-6 * (unit-spread value)`: tiny scale riding on an offset of 1
+    SmallScaleOffset,
 }
 
 /// a labelled feature matrix; `None` when the draw is degenerate in a way the generator avoids
@@ -499,6 +522,24 @@ fn draw_lda(rng: &mut Rng, n: usize, p: usize, v: Variant, nd: usize) -> Option<
                 for i in 0..n {
                     f[i * p + j] *= s;
                 }
+            }
+        }
+        Variant::Offset(off) => {
+            // the offset is added exactly (values are multiples of 2^-16 below 2^4; 1e9 needs 30 bits)
+            let j = rng.below(p);
+            let two = p >= 2 && rng.chance(1, 3);
+            let k = (j + 1) % p;
+            for i in 0..n {
+                f[i * p + j] += off;
+                if two {
+                    f[i * p + k] -= off;
+                }
+            }
+        }
+        Variant::SmallScaleOffset => {
+            let j = rng.below(p);
+            for i in 0..n {
+                f[i * p + j] = 1.0 + 1e-6 * f[i * p + j];
             }
         }
         Variant::Duplicates => {
@@ -638,6 +679,36 @@ fn gen_lda(rng: &mut Rng, tier: Tier, emit: &mut dyn FnMut(Case)) {
                 rng.shuffle(&mut perm);
                 emit(Case::new(req_lda(n, 20, &f, &d, &perm)).tag("lda").tag("twenty-features").tag("perm-random"));
             }
+        }
+    }
+    // large-offset: matrices that are well-conditioned after centring, with one or two columns carrying a
+    // common offset of 1e3 / 1e6 / 1e9 (unit spread) or a column 1 + 1e-6 * value; both classes well
+    // populated; the row order is always shuffled (row-permutation clause)
+    let off_reps = if quick { 8 } else { 150 };
+    for _ in 0..off_reps {
+        for &(v, tag) in &[
+            (Variant::Offset(1e3), "offset-1e3"),
+            (Variant::Offset(1e6), "offset-1e6"),
+            (Variant::Offset(1e9), "offset-1e9"),
+            (Variant::SmallScaleOffset, "scale-1e-6-offset-1"),
+        ] {
+            let n = 20 + rng.below(41);
+            let p = 2 + rng.below(3);
+            let nd = n / 4 + rng.below(n / 2);
+            if let Some((f, d)) = draw_lda(rng, n, p, v, nd) {
+                let mut perm: Vec<usize> = (0..n).collect();
+                rng.shuffle(&mut perm);
+                emit(Case::new(req_lda(n, p, &f, &d, &perm)).tag("lda").tag("large-offset").tag(tag).tag("perm-random"));
+            }
+        }
+    }
+    // the demo of seeded change C15-E: 60 rows x 3 features, first column offset by 1e9
+    {
+        let mut r = Rng::new(0xC15E);
+        if let Some((f, d)) = draw_lda(&mut r, 60, 3, Variant::Plain, 25) {
+            let f: Vec<f64> = f.iter().enumerate().map(|(i, x)| if i % 3 == 0 { x + 1e9 } else { *x }).collect();
+            let perm: Vec<usize> = (0..60).rev().collect();
+            emit(Case::new(req_lda(60, 3, &f, &d, &perm)).tag("lda").tag("large-offset").tag("offset-1e9").tag("perm-random"));
         }
     }
     // zero rows / zero features
